@@ -1,11 +1,15 @@
+pub mod c04;
 pub mod c08;
+pub mod c13;
 
 use crate::engine::Prop;
 use std::sync::Arc;
 
 pub fn lookup(id: &str) -> Option<Arc<dyn Prop>> {
     Some(match id {
+        "C04" => Arc::new(c04::C04),
         "C08" => Arc::new(c08::C08),
+        "C13" => Arc::new(c13::C13),
         _ => return None,
     })
 }
